@@ -570,66 +570,84 @@ class Visitor(ast.NodeVisitor):
         return result
 
     def visit_BoolOp(self, node: ast.BoolOp) -> Any:
-        """Recursively visit the operands and apply the operation on them."""
-        values = [self.visit(value_node) for value_node in node.values]
-
-        # Please see "NOTE ABOUT PLACEHOLDERS AND RE-COMPUTATION"
-        if any(value is PLACEHOLDER for value in values):
-            return PLACEHOLDER
-
-        if isinstance(node.op, ast.And):
-            result = functools.reduce(lambda left, right: left and right, values, True)
-        elif isinstance(node.op, ast.Or):
-            result = functools.reduce(lambda left, right: left or right, values, True)
-        else:
+        """Recursively visit the operands as Python would (short-circuiting) and apply the operation on them."""
+        if not isinstance(node.op, (ast.And, ast.Or)):
             raise NotImplementedError("Unhandled op of {}: {}".format(node, node.op))
+
+        result = None  # type: Optional[Any]
+        has_placeholder = False
+        for value_node in node.values:
+            result = self.visit(value_node)
+
+            # Please see "NOTE ABOUT PLACEHOLDERS AND RE-COMPUTATION".
+            # We can not short-circuit on placeholders, so we keep on visiting the remaining operands.
+            if result is PLACEHOLDER:
+                has_placeholder = True
+                continue
+
+            if not has_placeholder:
+                if isinstance(node.op, ast.And):
+                    if not result:
+                        break
+                else:
+                    if result:
+                        break
+
+        if has_placeholder:
+            return PLACEHOLDER
 
         self.recomputed_values[node] = result
         return result
 
     def visit_Compare(self, node: ast.Compare) -> Any:
-        """Recursively visit the comparators and apply the operations on them."""
+        """Recursively visit the comparators as Python would (short-circuiting) and apply the operations on them."""
         left = self.visit(node=node.left)
 
-        comparators = [self.visit(node=comparator) for comparator in node.comparators]
-
-        # Please see "NOTE ABOUT PLACEHOLDERS AND RE-COMPUTATION"
-        if left is PLACEHOLDER or any(
-            comparator is PLACEHOLDER for comparator in comparators
-        ):
-            return PLACEHOLDER
+        has_placeholder = left is PLACEHOLDER
 
         result = None  # type: Optional[Any]
-        for comparator, op in zip(comparators, node.ops):
+        for i, (comparator_node, op) in enumerate(zip(node.comparators, node.ops)):
+            comparator = self.visit(node=comparator_node)
+
+            # Please see "NOTE ABOUT PLACEHOLDERS AND RE-COMPUTATION".
+            # We can not short-circuit on placeholders, so we keep on visiting the remaining comparators.
+            if comparator is PLACEHOLDER:
+                has_placeholder = True
+
+            if has_placeholder:
+                continue
+
             if isinstance(op, ast.Eq):
-                comparison = left == comparator
+                result = left == comparator
             elif isinstance(op, ast.NotEq):
-                comparison = left != comparator
+                result = left != comparator
             elif isinstance(op, ast.Lt):
-                comparison = left < comparator
+                result = left < comparator
             elif isinstance(op, ast.LtE):
-                comparison = left <= comparator
+                result = left <= comparator
             elif isinstance(op, ast.Gt):
-                comparison = left > comparator
+                result = left > comparator
             elif isinstance(op, ast.GtE):
-                comparison = left >= comparator
+                result = left >= comparator
             elif isinstance(op, ast.Is):
-                comparison = left is comparator
+                result = left is comparator
             elif isinstance(op, ast.IsNot):
-                comparison = left is not comparator
+                result = left is not comparator
             elif isinstance(op, ast.In):
-                comparison = left in comparator
+                result = left in comparator
             elif isinstance(op, ast.NotIn):
-                comparison = left not in comparator
+                result = left not in comparator
             else:
                 raise NotImplementedError("Unhandled op of {}: {}".format(node, op))
 
-            if result is None:
-                result = comparison
-            else:
-                result = result and comparison
+            # Python tests the truthiness only if there are comparisons left in the chain.
+            if i < len(node.ops) - 1 and not result:
+                break
 
             left = comparator
+
+        if has_placeholder:
+            return PLACEHOLDER
 
         self.recomputed_values[node] = result
         return result
